@@ -20,8 +20,8 @@ P = {
    text="Decides the durability ORDERING obligations (write→flush→sync→acknowledge/install/delete) of the journal, table, manifest, flush, recovery and transaction-commit paths on every CFG path, including all error exits. Crash-point enumeration and the post-crash images are dynamic and NOT decided; a broken ordering is a crash point that loses an acknowledged write.",
    ref="DESIGN.md §2 C04"),
  "C09": dict(
-   technique="path-sensitive typestate on SSA (mutexes, channel write-lock token with per-function contracts, open transaction), exhaustive blocking-channel-op inventory, call-graph reachability, lock-order graph (held-set typestate x transitive may-acquire over the VTA call graph) with cycle detection",
-   text="Decides that on every CFG path (every error exit included) whatever an operation acquired is released or handed over per a reviewed contract, that every blocking channel operation has a close/timeout alternative or is a reviewed rendezvous, that locks held across the exit-panic protocol are deferred, that Close's steps are ordered, and that the lock-order graph over the module's mutexes is acyclic with no mutex re-acquired while held (the cache/table-reader layer collapsed to one node). Liveness under schedules is NOT decided; a broken clause is a guaranteed hang for some fault position.",
+   technique="path-sensitive typestate on SSA (mutexes, channel write-lock token with per-function contracts, open transaction), exhaustive blocking-channel-op inventory, call-graph reachability, lock-order graph (held-set typestate x transitive may-acquire over the VTA call graph) with cycle detection, inventory of channel waits under a mutex checked against the partner goroutine's may-acquire set",
+   text="Decides that on every CFG path (every error exit included) whatever an operation acquired is released or handed over per a reviewed contract, that every blocking channel operation has a close/timeout alternative or is a reviewed rendezvous, that locks held across the exit-panic protocol are deferred, that Close's steps are ordered, and that the lock-order graph over the module's mutexes is acyclic with no mutex re-acquired while held (the cache/table-reader layer collapsed to one node), and that no goroutine waits on a channel under a mutex that the goroutine on the other end can need. Liveness under schedules is NOT decided; a broken clause is a guaranteed hang for some fault position.",
    ref="DESIGN.md §2 C09"),
  "C10": dict(
    technique="path-sensitive typestate on SSA for the four-channel writer protocol, guard extraction, sibling comparison of Write/putRec",
